@@ -36,13 +36,19 @@ theorem addOpt_len (r : Rule) (s : SchemaD) (ti : TI) (v : Value) (rs : RS) :
   obtain ⟨k, hk⟩ := checkScalar_some s ti v
   simp [scalarErrs, hk, RS.addOpt, RS.errN, Nat.add_comm]
 
-/-- the node raises SkipNode -/
+/-- the node raises SkipNode: an object literal at a position that is not of input-object type AND that
+    `_check_scalar` rejects (proposed_fixes/C06-H5; before: whether rejected or not) -/
 def vocBad (s : SchemaD) : Node → TI → Bool
-  | .value (.obj _), t =>
+  | .value (.obj fs), t =>
     match t.inputType.map (·.base) with
-    | some b => !isInputObject s b
-    | none => true
+    | some b => !isInputObject s b && scalarErrs s t (.obj fs) != 0
+    | none => scalarErrs s t (.obj fs) != 0
   | _, _ => false
+
+theorem scalarSkip_eq (s : SchemaD) (ti : TI) (v : Value) : scalarSkip (checkScalar s ti v) = (scalarErrs s ti v != 0) := by
+  obtain ⟨k, hk⟩ := checkScalar_some s ti v
+  simp only [scalarSkip, scalarErrs, hk, Option.getD_some]
+  cases k <;> simp
 
 /-- errors added by a node that raises SkipNode -/
 def vocS (s : SchemaD) : Node → TI → Nat
@@ -103,10 +109,13 @@ theorem voc_enter (s : SchemaD) (fx : Fixes) (n : Node) (ti : TI) (rs : RS) :
     | obj fs =>
       have hopt : ti.inputType = none ∨ ∃ it, ti.inputType = some it := by cases ti.inputType <;> simp
       rcases hopt with hit | ⟨it, hit⟩
-      · simp [enterRule, vocBad, vocF, vocS, hit, addOpt_len]
+      · simp only [enterRule, vocBad, vocF, vocS, hit, Option.map_none, addOpt_len, scalarSkip_eq, true_and]
+        by_cases hz : scalarErrs s ti (.obj fs) = 0 <;> simp [hz]
       · by_cases hi : isInputObject s it.base = true
         · simp [enterRule, vocBad, vocF, vocS, hit, hi, RS.errN]; omega
-        · simp [enterRule, vocBad, vocF, vocS, hit, hi, addOpt_len]
+        · simp only [enterRule, vocBad, vocF, vocS, hit, Option.map_some, hi, Bool.false_eq_true, ↓reduceIte,
+            addOpt_len, scalarSkip_eq, Bool.not_false, Bool.true_and, true_and]
+          by_cases hz : scalarErrs s ti (.obj fs) = 0 <;> simp [hz]
   | objField name =>
     simp only [enterRule, vocBad, vocF, Bool.false_eq_true, ↓reduceIte, true_and]
     cases ti.inputType <;> cases ti.parentInputType s fx <;> simp [RS.err]
